@@ -5,12 +5,16 @@
   After the `fix:` that takes the condition from the parse tree (conditionText) and expands predicates on
   identifiers, nothing downstream of the lexer looks at the characters again; the theorems below are that
   factorisation. The lexer itself (white space is skipped between tokens) is tied to ANTLR's by the
-  correspondence `lex` (checks/c14.py: random layouts at every token boundary, real lexer vs model) —
-  the round-trip "every layout of a token sequence lexes back to it" (`lex_layout` in DESIGN.md) is *not*
-  proved in Lean. The `' in '` token contains its own blanks: extra white space next to it is a different
-  token sequence (`'in'`), which the grammar rejects — recorded finding C14:in-whitespace.
+  correspondence `lex` (checks/c14.py: random layouts at every token boundary, real lexer vs model).
+  `C14_lex_layout` (Cpf.Lemmas.LexLayout, Cpf.Lemmas.LexLayoutQ) is the lexer half: for the lexer rules of the
+  regenerated table, changing the white space between the tokens of an input — more, less (not none where there
+  was some), other white-space characters, white space where there was none — leaves the token sequence as it
+  is, for every input and every such change. The `' in '` token contains its own blanks: a run of white space
+  that begins with ` in ` is excluded (`inP`), because there a blank more or less is a different token sequence
+  (`'in'`), which the grammar rejects — recorded finding C14:in-whitespace.
 -/
 import Cpf.Query.Cli
+import Cpf.Lemmas.LexLayoutQ
 
 namespace Cpf.Props.C14
 open Cpf.Query Cpf.Go Cpf.Generated
@@ -40,6 +44,58 @@ theorem C14 (ρ : Nat → Tuple → Res) (g : List Node) (b : Bool) (cs₁ cs₂
 theorem C14_valid (cs₁ cs₂ : List Char) (h : lex lexRules cs₁ = lex lexRules cs₂) :
     (prepare cs₁).isOk = (prepare cs₂).isOk := by
   rw [C14_prepare cs₁ cs₂ h]
+
+/-! ### the lexer half: re-layouts have the same tokens -/
+
+open Cpf.Lemmas.LexLayout Cpf.Lemmas.LexLayoutQ in
+/-- **C14 (lexer)**: white space between tokens — inserted, changed, made longer or shorter — does not change the
+    token sequence (nor the number of lexer errors). `Relayout` walks along the tokens of `s`. -/
+theorem C14_lex_layout (s s' : List Char) (h : Relayout s s') : lex lexRules s = lex lexRules s' :=
+  lex_relayout h
+
+open Cpf.Lemmas.LexLayoutQ in
+/-- **C14 (end to end in the model)**: a re-layout of a query has the same answer, and stays valid. -/
+theorem C14_layout (ρ : Nat → Tuple → Res) (g : List Node) (b : Bool) (s s' : List Char) (h : Relayout s s') :
+    answer ρ g b s = answer ρ g b s' ∧ (prepare s).isOk = (prepare s').isOk :=
+  ⟨C14 ρ g b s s' (C14_lex_layout s s' h), C14_valid s s' (C14_lex_layout s s' h)⟩
+
+open Cpf.Lemmas.LexLayoutQ in
+/-- two layouts of one text agree with each other -/
+theorem C14_two_layouts (ρ : Nat → Tuple → Res) (g : List Node) (b : Bool) (s s₁ s₂ : List Char)
+    (h₁ : Relayout s s₁) (h₂ : Relayout s s₂) : answer ρ g b s₁ = answer ρ g b s₂ := by
+  rw [← (C14_layout ρ g b s s₁ h₁).1, (C14_layout ρ g b s s₂ h₂).1]
+
+open Cpf.Lemmas.LexLayout Cpf.Lemmas.LexLayoutQ in
+/-- Non-vacuity: `a.b("x y")` and `a .<TAB>b ( "x y" )<LF>` are related (white space put at five token boundaries
+    and after the last token; the blank inside the literal is not between tokens and stays). -/
+example : Relayout ['a', '.', 'b', '(', '"', 'x', ' ', 'y', '"', ')']
+    ['a', ' ', '.', '\t', 'b', ' ', '(', ' ', '"', 'x', ' ', 'y', '"', ' ', ')', '\n'] := by
+  refine Relayout.tok' 'a' [] (s := ['.', 'b', '(', '"', 'x', ' ', 'y', '"', ')'])
+    (s' := [' ', '.', '\t', 'b', ' ', '(', ' ', '"', 'x', ' ', 'y', '"', ' ', ')', '\n']) (by decide) (by decide) ?_
+  refine Relayout.gap [] [' '] (s := ['.', 'b', '(', '"', 'x', ' ', 'y', '"', ')'])
+    (s' := ['.', '\t', 'b', ' ', '(', ' ', '"', 'x', ' ', 'y', '"', ' ', ')', '\n']) (by decide) (by decide) (by decide)
+    (by decide) (by decide) (by decide) (by decide) ?_
+  refine Relayout.tok' '.' [] (s := ['b', '(', '"', 'x', ' ', 'y', '"', ')'])
+    (s' := ['\t', 'b', ' ', '(', ' ', '"', 'x', ' ', 'y', '"', ' ', ')', '\n']) (by decide) (by decide) ?_
+  refine Relayout.gap [] ['\t'] (s := ['b', '(', '"', 'x', ' ', 'y', '"', ')'])
+    (s' := ['b', ' ', '(', ' ', '"', 'x', ' ', 'y', '"', ' ', ')', '\n']) (by decide) (by decide) (by decide)
+    (by decide) (by decide) (by decide) (by decide) ?_
+  refine Relayout.tok' 'b' [] (s := ['(', '"', 'x', ' ', 'y', '"', ')'])
+    (s' := [' ', '(', ' ', '"', 'x', ' ', 'y', '"', ' ', ')', '\n']) (by decide) (by decide) ?_
+  refine Relayout.gap [] [' '] (s := ['(', '"', 'x', ' ', 'y', '"', ')'])
+    (s' := ['(', ' ', '"', 'x', ' ', 'y', '"', ' ', ')', '\n']) (by decide) (by decide) (by decide)
+    (by decide) (by decide) (by decide) (by decide) ?_
+  refine Relayout.tok' '(' [] (s := ['"', 'x', ' ', 'y', '"', ')'])
+    (s' := [' ', '"', 'x', ' ', 'y', '"', ' ', ')', '\n']) (by decide) (by decide) ?_
+  refine Relayout.gap [] [' '] (s := ['"', 'x', ' ', 'y', '"', ')'])
+    (s' := ['"', 'x', ' ', 'y', '"', ' ', ')', '\n']) (by decide) (by decide) (by decide)
+    (by decide) (by decide) (by decide) (by decide) ?_
+  refine Relayout.tok' '"' ['x', ' ', 'y', '"'] (s := [')']) (s' := [' ', ')', '\n']) (by decide) (by decide) ?_
+  refine Relayout.gap [] [' '] (s := [')']) (s' := [')', '\n']) (by decide) (by decide) (by decide)
+    (by decide) (by decide) (by decide) (by decide) ?_
+  refine Relayout.tok' ')' [] (s := []) (s' := ['\n']) (by decide) (by decide) ?_
+  exact Relayout.gap [] ['\n'] (s := []) (s' := []) (by decide) (by decide) (by decide)
+    (by decide) (by decide) (by decide) (by decide) Relayout.nil
 
 /-- The condition text recorded by the listener is a function of the tokens of the WHERE sub-tree only. -/
 theorem C14_conditionText_tokens (t : Token) :
